@@ -27,7 +27,7 @@ PROFILES = {
     "C09": {"stmts_max": 5, "save": 0.2},
     "C10": {"origins": 0.6, "save": 0.15},
     "C11": {"origins": 0.3},
-    "C12": {"origins": 0.4, "bad_allot_sum": 0.1, "negative_amount": 0.08},
+    "C12": {"origins": 0.4, "bad_allot_sum": 0.1, "negative_amount": 0.08, "bad_call": 0.05, "bad_origin": 0.06},
     "C20": {"origins": 0.4},
 }
 
